@@ -39,17 +39,20 @@ def check_prog(ctx, r, prog):
             wn = T.wire_name(h["name"])
             if wn not in table:
                 continue
-            exp = schema_of(h["resp_ti"])
+            decl = h.get("resp_decl_ti", h["resp_ti"])
+            exp = schema_of(decl)
             if table[wn] != exp:
-                ctx.violate("part-schema", f"{pn}: {h['hid']} is declared to return {prog['types'][h['resp_ti']].rust} but the table carries schema `{table[h['name']].get('title')}`",
+                ctx.violate("part-schema" + (":resp-literal" if h.get("resp_literal") else ""), f"{pn}: {h['hid']} is declared to return {prog['types'][decl].rust} but the table carries schema `{table[h['name']].get('title')}`",
                             dict(detail, handler=h["hid"], expected=exp, observed=table[wn]))
             union[wn] = exp
             ctx.count("queries_with_explicit_resp" if h.get("resp_explicit") else "queries_with_inferred_resp")
-            sibs = [h2 for h2 in qs if h2 is not h and h2["resp_ti"] != h["resp_ti"]]
+            if h.get("resp_literal"):
+                ctx.count("queries_with_resp_overriding_literal_result")
+            sibs = [h2 for h2 in qs if h2 is not h and h2.get("resp_decl_ti", h2["resp_ti"]) != decl]
             if sibs:
-                ctx.nontrivial([pn, h["hid"], prog["types"][h["resp_ti"]].rust])
+                ctx.nontrivial([pn, h["hid"], prog["types"][decl].rust])
             if len(ctx.samples) < 4 and sibs:
-                ctx.sample({"program": pn, "query": h["hid"], "declared_response": prog["types"][h["resp_ti"]].rust,
+                ctx.sample({"program": pn, "query": h["hid"], "declared_response": prog["types"][decl].rust,
                             "table_schema_title": table[wn].get("title")})
     o = r.call({"prog": pn, "op": "schemas:w"})
     ctx.ev()
